@@ -271,13 +271,17 @@ pub fn apply_operator(op: &str, toks: &[Tok], r: &mut Rng) -> Option<String> {
         "cdata-unclosed" => { let i = content_site(&t, r)?; t.insert(i, tok(TK::CData, "<![CDATA[ c")); for x in t.iter_mut().skip(i + 1) { if x.s.contains("]]>") { x.s = x.s.replace("]]>", "]] >"); } } }
         "cdata-outside-root" => { let at = if r.chance(1, 2) { re } else { ro }; t.insert(at, tok(TK::CData, "<![CDATA[x]]>")); }
         "attr-entity-lt" => { let i = find_kind(&t, TK::AttrValue, r)?; let q = t[i].s.chars().next().unwrap(); t[i].s = format!("{}&zlt;{}", q, q); return Some(with_decl(&t, "<!ENTITY zlt \"a&#60;b\">")); }
-        "entity-recursive" => { let i = content_site(&t, r)?; t.insert(i, tok(TK::EntRef, "&zr1;")); return Some(with_decl(&t, r.pick_s(&["<!ENTITY zr1 \"&zr2;\"><!ENTITY zr2 \"x&zr1;\">", "<!ENTITY zr1 \"&zr2;\"><!ENTITY zr2 \"&zr3;\"><!ENTITY zr3 \"&zr2;\">", "<!ENTITY zr1 \"a&zr2;\"><!ENTITY zr2 \"&zr2;\">", "<!ENTITY zr1 \"&zr1;\">"]))); }
+        "entity-recursive" => { let i = content_site(&t, r)?; t.insert(i, tok(TK::EntRef, "&zr1;")); return Some(with_decl(&t, r.pick_s(&["<!ENTITY zr1 \"&zr2;\"><!ENTITY zr2 \"x&zr1;\">", "<!ENTITY zr1 \"&zr2;\"><!ENTITY zr2 \"&zr3;\"><!ENTITY zr3 \"&zr2;\">", "<!ENTITY zr1 \"a&zr2;\"><!ENTITY zr2 \"&zr2;\">", "<!ENTITY zr1 \"&zr1;\">",
+            // cycles through a re-declared predefined name
+            "<!ENTITY amp \"&amp;\"><!ENTITY zr1 \"x&amp;y\">", "<!ENTITY lt \"&#38;lt;\"><!ENTITY zr1 \"&lt;\">", "<!ENTITY zr1 \" &amp; \"><!ENTITY amp \"&zr1;\">", "<!ENTITY gt \"&lt;\"><!ENTITY lt \"&gt;\"><!ENTITY zr1 \"&gt;\">"]))); }
         "entity-unparsed-ref" => { let i = content_site(&t, r)?; t.insert(i, tok(TK::EntRef, "&zun;")); return Some(with_decl(&t, "<!NOTATION zn SYSTEM \"n\"><!ENTITY zun SYSTEM \"u.bin\" NDATA zn>")); }
         "entity-external-attr" => { let i = find_kind(&t, TK::AttrValue, r)?; let q = t[i].s.chars().next().unwrap(); t[i].s = format!("{}&zex;{}", q, q); return Some(with_decl(&t, "<!ENTITY zex SYSTEM \"e.xml\">")); }
         "empty-document" => { return Some(r.pick_s(&["", " ", "\n", "<?xml version=\"1.0\"?>", "<!--c-->", "<!DOCTYPE a>"]).to_string()); }
         "etag-attr" => { let i = find_kind(&t, TK::ETag, r)?; let s = t[i].s.clone(); t[i].s = format!("{} a=\"1\">", s.trim_end_matches('>').trim_end()); }
         "entity-value-lt-ref" => { let i = content_site(&t, r)?; t.insert(i, tok(TK::EntRef, "&zm;")); return Some(with_decl(&t, "<!ENTITY zm \"<q>\">")); }
-        "entity-amp-ref" => { let i = content_site(&t, r)?; t.insert(i, tok(TK::EntRef, "&zam;")); return Some(with_decl(&t, r.pick_s(&["<!ENTITY zam \"a&#38;b\">", "<!ENTITY zam \"&#x26;\">", "<!ENTITY zam \"x&#38;amp y\">", "<!ENTITY zam \"&#38;#;\">", "<!ENTITY zam \"&#38;#x;\">", "<!ENTITY zam \"&#38;a b;\">"]))); }
+        "entity-amp-ref" => { let i = content_site(&t, r)?; t.insert(i, tok(TK::EntRef, "&zam;")); return Some(with_decl(&t, r.pick_s(&["<!ENTITY zam \"a&#38;b\">", "<!ENTITY zam \"&#x26;\">", "<!ENTITY zam \"x&#38;amp y\">", "<!ENTITY zam \"&#38;#;\">", "<!ENTITY zam \"&#38;#x;\">", "<!ENTITY zam \"&#38;a b;\">",
+            // a long tail with multi-byte characters after the stray ampersand (whatever the error report quotes must not be cut inside a character)
+            "<!ENTITY zam \"R&#38;D \u{7814}\u{7a76}\u{958b}\u{767a}\u{30bb}\u{30f3}\u{30bf}\u{30fc}\u{6771}\u{4eac}\u{672c}\u{793e}\u{30d3}\u{30eb}\u{30c7}\u{30a3}\u{30f3}\u{30b0}\">", "<!ENTITY zam \"ab&#38;\u{e9}\u{e9}\u{e9}\u{e9}\u{e9}\u{e9}\u{e9}\u{e9}\u{e9}\u{e9}\u{e9}\u{e9}\u{e9}\u{e9}\u{e9}\u{e9}\u{e9}\u{e9}\u{e9}\u{e9}\">", "<!ENTITY zam \"&#38;\u{1d4b3}\u{1d4b3}\u{1d4b3}\u{1d4b3}\u{1d4b3}\u{1d4b3}\u{1d4b3}\u{1d4b3}\u{1d4b3}\u{1d4b3}x\">", "<!ENTITY zam \"a&#38;#x110000;\u{540d}\u{540d}\u{540d}\u{540d}\u{540d}\u{540d}\u{540d}\u{540d}\u{540d}\u{540d}\u{540d}\u{540d}\">"]))); }
         "entity-amp-attr" => { let i = find_kind(&t, TK::AttrValue, r)?; let q = t[i].s.chars().next().unwrap(); t[i].s = format!("{}&zaa;{}", q, q); return Some(with_decl(&t, r.pick_s(&["<!ENTITY zaa \"a&#38;b\">", "<!ENTITY zaa \"&#38;#1;\">", "<!ENTITY zaa \"&#x26;\">"]))); }
         "entity-charref-illegal" => { let i = content_site(&t, r)?; t.insert(i, tok(TK::EntRef, "&zci;")); return Some(with_decl(&t, r.pick_s(&["<!ENTITY zci \"a&#38;#23;\">", "<!ENTITY zci \"&#38;#x0;\">", "<!ENTITY zci \"&#38;#xFFFE;\">", "<!ENTITY zci \"&#38;#xD800;\">", "<!ENTITY zci \"&#38;#x110000;\">"]))); }
         "entity-hidden-recursion" => { let i = content_site(&t, r)?; t.insert(i, tok(TK::EntRef, "&zh1;")); return Some(with_decl(&t, r.pick_s(&["<!ENTITY zh1 \"&#38;zh1;\">", "<!ENTITY zh1 \"&zh2;\"><!ENTITY zh2 \"x&#38;zh1;\">", "<!ENTITY zh1 \"&#x26;zh2;\"><!ENTITY zh2 \"&#38;zh1;\">"]))); }
@@ -559,6 +563,8 @@ pub fn family_input(fam: &str, n: usize) -> String {
         "entity-hidden-cycle" => { let k = n.max(1); let mut s = String::from("<!DOCTYPE r ["); for i in 0..k { s.push_str(&format!("<!ENTITY g{} '&#38;g{};'>", i, (i + 1) % k)); } s.push_str("]><r a='&g0;'>&g0;</r>"); s }
         "entity-escaped-chain" => { let mut s = String::from("<!DOCTYPE r [<!ENTITY d0 '&#38;#60;'>"); for i in 1..=n { s.push_str(&format!("<!ENTITY d{} '&#38;d{};'>", i, i - 1)); } s.push_str(&format!("]><r a='&d{};'>&d{};</r>", n, n)); s }
         "attlist-default-entref" => { let mut s = String::from("<!DOCTYPE r [<!ENTITY e 'v'>"); for i in 0..n.max(1) { s.push_str(&format!("<!ATTLIST r a{} CDATA '&e;&lt;&#38;'>", i)); } s.push_str("]><r/>"); s }
+        "entity-predefined-cycle" => { let k = n.max(1); let mut s = String::from("<!DOCTYPE r [<!ENTITY amp '&z0;'>"); for i in 0..k { s.push_str(&format!("<!ENTITY z{} ' &{}; '>", i, if i + 1 < k { format!("z{}", i + 1) } else { "amp".to_string() })); } s.push_str("]><r a='&z0;'>&z0;</r>"); s }
+        "entity-error-long-tail" => format!("<!DOCTYPE r [<!ENTITY e 'a&#38;{}'>]><r>&e;</r>", "\u{7814}\u{e9}x".repeat(n.max(1))),
         "entity-fanout" => { let mut s = String::from("<!DOCTYPE r [<!ENTITY f0 'x'>"); for i in 1..=n { s.push_str(&format!("<!ENTITY f{} '&f{};&f{};'>", i, i - 1, i - 1)); } s.push_str(&format!("]><r a='&f{};'/>", n)); s }
         "decls" => format!("<!DOCTYPE r [{}]><r/>", rep("<!ENTITY e 'v'><!NOTATION n SYSTEM 's'><!ATTLIST r a CDATA #IMPLIED>", n)),
         "lt-run" => rep("<", n),
@@ -571,7 +577,7 @@ pub fn family_input(fam: &str, n: usize) -> String {
 
 pub const FAMILIES: &[&str] = &["depth", "depth-attrs", "depth-unclosed", "width", "width-text", "attrs", "text-length", "attr-length", "name-length", "comment-length",
     "cdata-length", "pis", "charrefs", "charref-digits", "nsdecls", "nested-choice", "nested-seq", "nested-group-bad", "mixed-names", "entity-chain", "entity-cycle",
-    "entity-fanout", "entity-rho", "entity-rho-attr", "entity-hidden-cycle", "entity-escaped-chain", "attlist-default-entref", "decls", "lt-run", "amp-run", "open-comment", "pe"];
+    "entity-fanout", "entity-predefined-cycle", "entity-error-long-tail", "entity-rho", "entity-rho-attr", "entity-hidden-cycle", "entity-escaped-chain", "attlist-default-entref", "decls", "lt-run", "amp-run", "open-comment", "pe"];
 
 fn family_max(fam: &str, thorough: bool) -> usize {
     let big = if thorough { 200_000 } else { 20_000 };
@@ -579,7 +585,7 @@ fn family_max(fam: &str, thorough: bool) -> usize {
         "depth" | "depth-attrs" | "depth-unclosed" => big,
         "nested-choice" | "nested-seq" | "nested-group-bad" => if thorough { 4096 } else { 512 },
         "entity-fanout" => if thorough { 64 } else { 32 },
-        "attrs" | "nsdecls" | "entity-chain" | "entity-cycle" | "entity-rho" | "entity-rho-attr" | "entity-hidden-cycle" | "entity-escaped-chain" | "attlist-default-entref" | "decls" => if thorough { 4000 } else { 1000 },
+        "attrs" | "nsdecls" | "entity-chain" | "entity-cycle" | "entity-predefined-cycle" | "entity-rho" | "entity-rho-attr" | "entity-hidden-cycle" | "entity-escaped-chain" | "attlist-default-entref" | "decls" => if thorough { 4000 } else { 1000 },
         "pe" => 1,
         _ => big,
     }
@@ -665,7 +671,7 @@ fn c11_pieces() -> Vec<(&'static str, APiece)> {
         ("text-a", APiece::Text("a".into())), ("text-sp", APiece::Text(" ".into())), ("text-sp2", APiece::Text("  ".into())), ("text-tab", APiece::Text("\t".into())),
         ("text-lf", APiece::Text("\n".into())), ("text-padded", APiece::Text(" b c ".into())), ("charref-sp", APiece::CharRef(' ', false)), ("charref-tab", APiece::CharRef('\t', true)),
         ("charref-lf", APiece::CharRef('\n', false)), ("charref-cr", APiece::CharRef('\r', true)), ("charref-a", APiece::CharRef('a', false)), ("ent-plain", APiece::EntRef("eplain".into())),
-        ("ent-ws", APiece::EntRef("ews".into())), ("ent-nested", APiece::EntRef("enest".into())), ("ent-charref-ws", APiece::EntRef("ecr".into())), ("ent-lt", APiece::EntRef("lt".into())),
+        ("ent-ws", APiece::EntRef("ews".into())), ("ent-nested", APiece::EntRef("enest".into())), ("ent-charref-ws", APiece::EntRef("ecr".into())), ("ent-charref-cr", APiece::EntRef("ecr13".into())), ("ent-lt", APiece::EntRef("lt".into())),
         ("ent-quot", APiece::EntRef("quot".into())),
     ]
 }
@@ -682,6 +688,7 @@ fn c11_doc(written: Option<&[APiece]>, ty: &Option<AttType>, default: &AttDefaul
         Decl::Entity("ews".into(), vec![APiece::Text("p\tq\n r ".into())]),
         Decl::Entity("enest".into(), vec![APiece::Text(" ".into()), APiece::EntRef("ews".into()), APiece::Text("\n".into())]),
         Decl::Entity("ecr".into(), vec![APiece::Text("m".into()), APiece::CharRef('\n', false), APiece::CharRef('\t', true), APiece::Text("n".into())]),
+        Decl::Entity("ecr13".into(), vec![APiece::Text("k".into()), APiece::CharRef('\r', false), APiece::Text("l".into())]),
         Decl::Notation("n1".into(), None, Some("n".into())),
     ];
     if let Some(t) = ty {
@@ -812,6 +819,60 @@ pub fn c11(ctx: &mut Ctx) {
                         }
                         Err(e) => ctx.inconclusive(&e),
                     }
+                }
+            }
+        }
+    }
+    c11_reown(ctx);
+}
+
+/// C11, DOM phase: the declared type of an attribute is that of its *current* owner element. An attribute node is created,
+/// read, attached to an element that declares it with a tokenized type, read, moved to an element that does not declare it,
+/// read, and moved back; every read must give the value normalised for the owner of that moment.
+fn c11_reown(ctx: &mut Ctx) {
+    use xml_dom::{AsNode, Attr, AttrMut, Document, DocumentMut, ElementMut, Node as DomNode, NodeList};
+    let types = c11_types();
+    let values = [" p  q ", "a", "  ", "p q ", " \u{e9} ", "x"];
+    let mut idx = 40_000_000u64;
+    for (tname, ty) in types.iter() {
+        let ty = match ty { Some(t) => t, None => continue };
+        for v in values.iter() {
+            for first_read in [true, false] {
+                idx += 1;
+                if !ctx.mine(idx) { continue; }
+                let decl = Decl::Attlist(None, "t".into(), vec![AttDef { prefix: None, local: "a".into(), ty: ty.clone(), default: AttDefault::Implied }]);
+                let root = Elem { local: "r".into(), children: vec![Node::Elem(Elem { local: "t".into(), ..Default::default() }), Node::Elem(Elem { local: "u".into(), ..Default::default() })], ..Default::default() };
+                let doc = Doc { decl: None, pre: vec![], doctype: Some(Doctype { prefix: None, name: "r".into(), pubid: None, sysid: None, subset: Some(vec![Decl::Notation("n1".into(), None, Some("n".into())), decl]) }), mid: vec![], root, post: vec![] };
+                let text = render(&doc, &mut Rng::new(idx), Style { minimal: true });
+                ctx.begin(idx, &text); ctx.count("reown/case"); ctx.nontrivial(&format!("reown|{}|{}|{}", tname, v, first_read));
+                let cdata = matches!(ty, AttType::CData);
+                let exp_plain = v.to_string();
+                let exp_owned = if cdata { v.to_string() } else { v.split(' ').filter(|x| !x.is_empty()).collect::<Vec<_>>().join(" ") };
+                let r = guarded(|| -> Result<Option<String>, String> {
+                    let p = obs::parse_dom(&text, false)?;
+                    let r = p.doc.document_element().map_err(|e| format!("{:?}", e))?;
+                    let kids: Vec<xml_dom::XmlNode> = r.as_node().child_nodes().iter().collect();
+                    let (t, u) = match (kids.first(), kids.get(1)) { (Some(xml_dom::XmlNode::Element(t)), Some(xml_dom::XmlNode::Element(u))) => (t.clone(), u.clone()), _ => return Err("shape".into()) };
+                    let a = p.doc.create_attribute("a").map_err(|e| format!("{:?}", e))?;
+                    a.set_value(v).map_err(|e| format!("{:?}", e))?;
+                    let read = |stage: &str, want: &str| -> Result<Option<String>, String> { let got = a.value().map_err(|e| format!("{:?}", e))?; if got != want { Ok(Some(format!("{}: expected {:?} observed {:?}", stage, want, got))) } else { Ok(None) } };
+                    if first_read { if let Some(w) = read("detached", &exp_plain)? { return Ok(Some(w)); } }
+                    t.set_attribute_node(a.clone()).map_err(|e| format!("{:?}", e))?;
+                    if let Some(w) = read("owned by the declaring element", &exp_owned)? { return Ok(Some(w)); }
+                    t.remove_attribute_node(a.clone()).map_err(|e| format!("{:?}", e))?;
+                    u.set_attribute_node(a.clone()).map_err(|e| format!("{:?}", e))?;
+                    if let Some(w) = read("moved to an element that does not declare it", &exp_plain)? { return Ok(Some(w)); }
+                    u.remove_attribute_node(a.clone()).map_err(|e| format!("{:?}", e))?;
+                    t.set_attribute_node(a.clone()).map_err(|e| format!("{:?}", e))?;
+                    if let Some(w) = read("moved back", &exp_owned)? { return Ok(Some(w)); }
+                    Ok(None)
+                });
+                match r {
+                    Caught::Ok(Ok(None)) => ctx.count("reown/agree"),
+                    Caught::Ok(Ok(Some(w))) => ctx.violation(idx, &format!("C11/reown/value/{}", if cdata { "CDATA" } else { "tokenized" }), &format!("{} :: type {} value {:?} :: {}", w, tname, v, text), &[("text", &text), ("value", v)]),
+                    Caught::Ok(Err(e)) => ctx.inconclusive(&format!("reown_setup:{}", crate::util::truncate(&e, 30))),
+                    Caught::Panic { file, msg } => ctx.violation(idx, &format!("C11/reown/panic/{}", file), &msg, &[("text", &text)]),
+                    Caught::Budget(_) => {}
                 }
             }
         }
